@@ -106,7 +106,7 @@ func (r *Report) RunSharded(n int, args []string) {
 		go func(i int) {
 			defer wg.Done()
 			cmd := exec.Command(os.Args[0], args...)
-			cmd.Env = append(os.Environ(), fmt.Sprintf("VERIF_SHARD=%d/%d", i, n), "VERIF_SHARD_OUT="+filepath.Join(dir, fmt.Sprintf("%d.json", i)), "GOMAXPROCS=1")
+			cmd.Env = append(os.Environ(), fmt.Sprintf("VERIF_SHARD=%d/%d", i, n), "VERIF_SHARD_OUT="+filepath.Join(dir, fmt.Sprintf("%d.json", i)), "GOMAXPROCS=1", "GODEBUG=asyncpreemptoff=1")
 			outs[i], errs[i] = cmd.CombinedOutput()
 		}(i)
 	}
@@ -272,10 +272,10 @@ func (r *Report) confirmFresh() {
 			cj = []byte("[]")
 		}
 		cmd := exec.Command(os.Args[0], "exec-one", r.Property, v.Part, string(cj))
-		cmd.Env = append(os.Environ(), "GOMAXPROCS=1", "VERIF_SHARD=", "GOTRACEBACK=single")
+		cmd.Env = append(os.Environ(), "GOMAXPROCS=1", "GODEBUG=asyncpreemptoff=1", "VERIF_SHARD=", "GOTRACEBACK=single")
 		if strings.HasSuffix(os.Args[0], ".test") {
 			cmd = exec.Command(os.Args[0], os.Args[1:]...)
-			cmd.Env = append(os.Environ(), "GOMAXPROCS=1", "VERIF_SHARD=", "GOTRACEBACK=single", "VERIF_EXEC_ONE="+v.Part+"|"+string(cj))
+			cmd.Env = append(os.Environ(), "GOMAXPROCS=1", "GODEBUG=asyncpreemptoff=1", "VERIF_SHARD=", "GOTRACEBACK=single", "VERIF_EXEC_ONE="+v.Part+"|"+string(cj))
 		}
 		out, err := cmd.CombinedOutput()
 		code := 0
@@ -317,10 +317,10 @@ func (r *Report) isolate(i, n int, curFile string, shardErr error, tail string) 
 		go func() {
 			defer wg.Done()
 			cmd := exec.Command(os.Args[0], "exec-one", r.Property, cur.Part, string(cj))
-			cmd.Env = append(os.Environ(), "GOMAXPROCS=1", "VERIF_SHARD=", "GOTRACEBACK=single")
+			cmd.Env = append(os.Environ(), "GOMAXPROCS=1", "GODEBUG=asyncpreemptoff=1", "VERIF_SHARD=", "GOTRACEBACK=single")
 			if strings.HasSuffix(os.Args[0], ".test") { // tier-B test binary: same arguments, sequence through the environment
 				cmd = exec.Command(os.Args[0], os.Args[1:]...)
-				cmd.Env = append(os.Environ(), "GOMAXPROCS=1", "VERIF_SHARD=", "GOTRACEBACK=single", "VERIF_EXEC_ONE="+cur.Part+"|"+string(cj))
+				cmd.Env = append(os.Environ(), "GOMAXPROCS=1", "GODEBUG=asyncpreemptoff=1", "VERIF_SHARD=", "GOTRACEBACK=single", "VERIF_EXEC_ONE="+cur.Part+"|"+string(cj))
 			}
 			out, err := cmd.CombinedOutput()
 			s := string(out)
